@@ -113,6 +113,29 @@ def run(chk: Check) -> None:
         ok = len(lo) == 1 and norm(lo[0].func) == 'self._loader.load_object' and [norm(a) for a in lo[0].args] == [hf.params[2]]
         chk.ob('PROV-loader', hf, ok, f'{handler}: the class is loaded from the task\'s identifier with the configured loader', kind='class-by-configured-loader')
         if ctor:
+            # the class constructed is, on EVERY path, what this launcher's loader returns for the task's identifier (not a remembered one)
+            from ..decisions import paths_under, value_on_path
+            want = f'self._loader.load_object({hf.params[2]})'
+            got = set()
+            try:
+                for path in paths_under(ff, {}):
+                    idx = [i for i, m in enumerate(path) if m is ctor[0]]
+                    if idx:
+                        got.add(norm(value_on_path(path, idx[0], ast.Name(id='proc_class', ctx=ast.Load()))))
+            except RuntimeError:
+                got.add('<too many paths>')
+            # (a per-INSTANCE memo filled only from this launcher's loader is the same thing; a class-level one is shared between launchers)
+            init_f = pl.methods.get('__init__')
+            inst_attrs = {t.attr for n in ast.walk(init_f.node) if isinstance(n, (ast.Assign, ast.AnnAssign)) for t in (n.targets if isinstance(n, ast.Assign) else [n.target])
+                          if isinstance(t, ast.Attribute) and norm(t.value) == 'self'} if init_f is not None else set()
+            memo_ok = set()
+            for a in inst_attrs:
+                stores = [n for f_ in pl.methods.values() for n in ast.walk(f_.node) if isinstance(n, ast.Assign) and any(isinstance(t, ast.Subscript) and norm(t.value) == f'self.{a}' for t in n.targets)]
+                if stores and all(isinstance(n.value, ast.Call) and norm(n.value.func) == 'self._loader.load_object' for n in stores):
+                    memo_ok.add(f'self.{a}[{hf.params[2]}]')
+            ok_cls = bool(got) and (got - memo_ok) <= {want}
+            chk.ob('PROV-loader', hf, ok_cls, f'{handler}: on every path the class constructed is {want} (found: {sorted(got)}) -- a class remembered from an earlier task was '
+                   'resolved by whichever launcher / loader came first', node=ctor[0].ast, kind='class-from-loader-on-every-path')
             c = [c for c in _calls(ctor[0]) if isinstance(c.func, ast.Name) and c.func.id == 'proc_class'][0]
             ok = [norm(a) for a in c.args] == ['*init_args'] and [(k.arg, norm(k.value)) for k in c.keywords] == [(None, 'init_kwargs')]
             chk.ob('PROV-loader', hf, ok, f'{handler}: constructed with exactly the task\'s positional and keyword arguments', node=c, kind='ctor-args')
